@@ -328,7 +328,9 @@ class Table:
             selection = []
             for kw,arg in kwargs.items():
                 comp = next(iter(arg.keys())) if isinstance(arg,dict) and arg else comparison
-                if kw in self._indexes and comp != "match" and not callable(arg):
+                #membership in a string is a substring test and that can't be answered by bisection
+                in_str = comp in ["in","!in"] and isinstance(next(iter(arg.values())) if isinstance(arg,dict) and arg else arg,str)
+                if kw in self._indexes and comp != "match" and not callable(arg) and not in_str:
                     for lo,hi in self._lohis[kw]:
                         for l,h in self._compare(lo,hi,self._data[kw],arg,comp,"bisect"):
                             selection.extend(range(l,h))
